@@ -6,6 +6,7 @@ import (
 	"encoding/binary"
 	"errors"
 	"io"
+	"math"
 	"slices"
 )
 
@@ -80,6 +81,12 @@ type Field struct {
 }
 
 func NewField(fieldType [2]byte, data []byte) Field {
+	// The size prefix of a field is 16 bits wide.  Cut longer data to what the prefix can announce, so that
+	// the prefix always agrees with the data that follows it.
+	if len(data) > math.MaxUint16 {
+		data = data[:math.MaxUint16]
+	}
+
 	f := Field{
 		Type: fieldType,
 		Data: make([]byte, len(data)),
